@@ -9,6 +9,8 @@ fn wd(d: &DateTime) -> u64 {
 }
 
 /// one integer per (day, time of day): dom + 32*month + 512*weekday + 4096*lbd + 8192*default
+/// + 16384 when the answer is not a function of its argument: asked again right after the schedule was asked about
+/// the same calendar day one year earlier and one year later (and other days around them), it answers differently
 pub fn run(sc: &Value) -> Value {
     let from = sc["from_day"].as_i64().unwrap();
     let to = sc["to_day"].as_i64().unwrap();
@@ -18,11 +20,23 @@ pub fn run(sc: &Value) -> Value {
         for t in &times {
             let ts = day * 86400 + t;
             let dt: DateTime = ts.into();
+            let plain = LastBusinessDayTradingSchedule::should_trade(&dt);
+            let mut unstable = false;
+            for off in [-366i64, -365, -364, 364, 365, 366, -31, 31] {
+                let other = ts + off * 86400;
+                if (-377_000_000_000..=253_000_000_000).contains(&other) {
+                    let _ = LastBusinessDayTradingSchedule::should_trade(&other.into());
+                    if LastBusinessDayTradingSchedule::should_trade(&dt) != plain {
+                        unstable = true;
+                    }
+                }
+            }
             let code = dt.day() as u64
                 + 32 * (dt.month() as u8 as u64)
                 + 512 * wd(&dt)
-                + 4096 * (LastBusinessDayTradingSchedule::should_trade(&dt) as u64)
-                + 8192 * (DefaultTradingSchedule::should_trade(&dt) as u64);
+                + 4096 * (plain as u64)
+                + 8192 * (DefaultTradingSchedule::should_trade(&dt) as u64)
+                + 16384 * (unstable as u64);
             out.push(code);
         }
     }
